@@ -201,7 +201,9 @@ def assembly_overrides(st, ctx, orc):
             return ems
         v = orc.lookup("emoji_name", arg, mk, allow=shape.get("emoji_names", True))
         return some(ItOwned([Str(e) for e in v])) if v is not None else none()
-    return {"Parser::convert": convert, "Parser::convert_into": convert_into,
+    def parser_new(it, args, callee):
+        return Opaque("Parser")
+    return {"Parser::convert": convert, "Parser::convert_into": convert_into, "Parser::new_phonetic": parser_new, "Parser::new_regex": parser_new,
             "PhoneticSuggestion::include_from_dictionary": include_from_dictionary,
             "Data::find_suffix": find_suffix, "Data::search_corrected": search_corrected,
             "Data::get_emoji_by_emoticon": emoticon, "Data::get_emoji_by_name": emoji_by_name,
@@ -509,6 +511,14 @@ def make_suggest(shape):
             if mode == "warm_pair":
                 # a context that has already composed this and other words: memo holds the word's own entry, scratch arbitrary
                 res["second"] = run_suggest(it, st, ctx, ps, term, selections, cfg)
+                # and a pristine object, as the crate's own constructor makes it (every field - also one this machinery does not know -
+                # at its initial value), with the memo a new context has after typing this text key by key
+                try:
+                    ps3 = it.call_function(prog.find_fn("PhoneticSuggestion", "new"), [ps_field(prog, ps, "user_autocorrect")])
+                    ps3.fields[prog.structs["PhoneticSuggestion"].index("cache")] = deep_copy(cache0)
+                    res["pristine"] = run_suggest(it, st, ctx, ps3, term, selections, cfg)
+                except Unsupported as ex:
+                    ctx["pristine_refused"] = str(ex)
             if mode == "learn":
                 res.update(learn_roundtrip(it, st, ctx, res["first"]))
             return res
@@ -792,6 +802,13 @@ def suggest_clauses(st, it, c, res, mode):
             clauses.append(("warm_context_gives_the_same_list", same))
             clauses.append(("warm_context_gives_the_same_preselection", simp(bv(sel, 64) == bv(sel2, 64))))
             clauses.append(("cover:warm", True))
+            if "pristine" in res:
+                lst3, sel3 = res["pristine"]
+                t3 = [rank_text(x) for x in lst3.items]
+                same3 = z3.And([seq_eq(a, b) for a, b in zip(t1, t3)]) if len(t1) == len(t3) else z3.BoolVal(False)
+                clauses.append(("context_with_history_gives_the_list_of_a_new_one", same3))
+                clauses.append(("context_with_history_gives_the_preselection_of_a_new_one", simp(bv(sel, 64) == bv(sel3, 64))))
+                clauses.append(("cover:pristine", True))
         else:
             if len(t1) != len(t2):
                 clauses.append(("smart_quotes_keep_length_and_order", False))
@@ -1133,6 +1150,24 @@ def warm_search(vs):
             if k < len(t2):
                 scs.append({"steps": [{"op": "new", "ctx": 0, "config": cfg}] + typ(t1, 0) + [{"op": "backspace", "ctx": 0}] * (len(t1) - k) + typ(t2[k:], 0)})
                 meta.append((t1, t2, "erased back to %r" % t2[:k]))
+    # a learned choice in between: the word is committed with another candidate, then typed again; the new context reads the same store
+    learned = []
+    for t in ("a", "k", "ami", "kal"):
+        for idx in (1, 2):
+            steps = [{"op": "new", "ctx": 0, "config": cfg}] + typ(t, 0) + [{"op": "commit", "ctx": 0, "index": idx}] + typ(t, 0) + [{"op": "get_state", "ctx": 0}] + \
+                    [{"op": "new", "ctx": 1, "config": cfg}] + typ(t, 1) + [{"op": "get_state", "ctx": 1}]
+            learned.append(({"steps": steps}, t, idx))
+    for (sc, t, idx), r in zip(learned, run_replay_parallel([x[0] for x in learned])):
+        rr = r["results"]
+        if any("panic" in x for x in rr):
+            continue
+        states = [i for i, x in enumerate(rr) if x.get("op") == "get_state"]
+        a, b3 = states[0], states[1]
+        la, lb = rr[a - 1].get("suggestion", {}).get("list"), rr[b3 - 1].get("suggestion", {}).get("list")
+        sa, sb = rr[a]["state"]["prev_selection"], rr[b3]["state"]["prev_selection"]
+        if la != lb or sa != sb:
+            return (sc, [rr[a - 1], rr[b3 - 1]], "one context composed %r, committed candidate %d and composed %r again: it offers %s with candidate %s preselected; a newly created context "
+                    "(same user files) offers %s with candidate %s preselected" % (t, idx, t, la, sa, lb, sb), "suggestions depend on what the context composed before")
     out = run_replay_parallel(scs)
     for (t1, t2, how), sc, r in zip(meta, scs, out):
         rr = r["results"]
@@ -1437,6 +1472,8 @@ def obl_warm(check, conv_table, thorough=False, budget_s=None):
     run_suggest_obligation(check, "memo_transparency", shapes, ["cover:warm"], budget_s=budget_s,
                            confirmers={"memo_entry_holds_direct_candidates_only": stacked_suffix_search, "warm_context_gives_the_same_list": warm_search,
                                        "memo_entry_is_keyed_by_the_word": warm_search,
+                                       "context_with_history_gives_the_list_of_a_new_one": warm_search,
+                                       "context_with_history_gives_the_preselection_of_a_new_one": warm_search,
                                        "warm_context_gives_the_same_preselection": warm_search})
 
 
@@ -2057,6 +2094,33 @@ def fixed_list_search(vs):
                         steps = [{"op": "new", "config": cfg}] + [{"op": "key", "key": keys[ch][0], "mod": keys[ch][1]} for ch in text] + [{"op": "get_state"}]
                         scs.append({"steps": steps})
                         meta.append((w, pre, trail, sq, en, ansi))
+    # emoticons: the fixed method looks them up under the raw keys, whatever those keys compose
+    ck = char_keys()
+    raw_scs, raw_meta = [], []
+    for t in (";)", ":)", ":(", ":-)", ";-)", ":P", "<3"):
+        if any(ch not in ck for ch in t):
+            continue
+        for en in (False, True):
+            for ansi in (False, True):
+                cfg = {"layout": os.path.join(REPO, "data", "Probhat.json"), "database": REPO + "/data",
+                       "opts": {"fixed_suggestion": True, "english": en, "ansi": ansi}}
+                raw_scs.append({"steps": [{"op": "new", "config": cfg}] + [{"op": "key", "key": ck[ch], "mod": 0} for ch in t] + [{"op": "get_state"}]})
+                raw_meta.append((t, en, ansi))
+    for (t, en, ansi), sc, r in zip(raw_meta, raw_scs, run_replay_parallel(raw_scs)):
+        rr = r["results"]
+        last = rr[-2]
+        if "panic" in last:
+            return sc, last, "fixed mode: the keys %r panic: %s" % (t, last["panic"]), None
+        st = rr[-1].get("state", {})
+        ranks = st.get("suggestions", [])
+        emoji_items = [x for k, x, n in ranks if k == 1]
+        emo = data["emoticon"].get(st.get("typed", ""))
+        lst = [x for k, x, n in ranks]
+        if ansi and (emoji_items or any(k == 3 for k, x, n in ranks)):
+            return sc, last, ("fixed mode (English %s, ANSI on): the keys %r compose %r and the list is %s - an emoji / the raw text is offered although it cannot be encoded" % (
+                en, t, st.get("buffer"), lst)), "fixed assembly: ansi_offers_no_emoji_or_raw_text"
+        if not ansi and emo is not None and emo not in emoji_items:
+            return sc, last, ("fixed mode (English %s): the keys %r are the emoticon of %r, the list is %s" % (en, t, emo, lst)), "fixed assembly: emoticon_offers_its_emoji"
     res = run_replay_parallel(scs)
 
     def curl(t, closing):
